@@ -122,7 +122,9 @@ func openTable(dir string, c tblR) (sstables.SSTableReaderI, error) {
 	return sstables.NewSSTableReader(opts...)
 }
 
-// drain reads an iterator to the end; limit protects against non-termination.
+// drain reads an iterator to the end; limit protects against non-termination. The returned slices are kept as they were
+// handed out (not copied) and only looked at after the iteration: a pair belongs to the caller once Next has returned it,
+// so a later Next must not change it.
 func drain(it sstables.SSTableIteratorI, limit int) (out []kv, err error) {
 	for i := 0; i < limit; i++ {
 		k, v, e := it.Next()
@@ -132,7 +134,7 @@ func drain(it sstables.SSTableIteratorI, limit int) (out []kv, err error) {
 			}
 			return out, e
 		}
-		out = append(out, kv{append([]byte(nil), k...), cloneVal(v)})
+		out = append(out, kv{k, v})
 	}
 	return out, fmt.Errorf("iterator did not terminate after %d steps", limit)
 }
